@@ -202,15 +202,6 @@ impl InterfaceInner {
             return None;
         }
 
-        let (next_header, ip_payload) = if ipv6_repr.next_header == IpProtocol::HopByHop {
-            match self.process_hopbyhop(ipv6_repr, ipv6_packet.payload()) {
-                HopByHopResponse::Discard(e) => return e,
-                HopByHopResponse::Continue(next) => next,
-            }
-        } else {
-            (ipv6_repr.next_header, ipv6_packet.payload())
-        };
-
         if !self.has_ip_addr(ipv6_repr.dst_addr)
             && !self.has_multicast_group(ipv6_repr.dst_addr)
             && !ipv6_repr.dst_addr.is_loopback()
@@ -236,6 +227,17 @@ impl InterfaceInner {
             net_trace!("Rejecting IPv6 packet; no assigned address");
             return None;
         }
+
+        // Hop-by-hop options are only looked at once we know the packet is for us: a host must
+        // not answer (from an address it does not own) packets addressed to somebody else.
+        let (next_header, ip_payload) = if ipv6_repr.next_header == IpProtocol::HopByHop {
+            match self.process_hopbyhop(ipv6_repr, ipv6_packet.payload()) {
+                HopByHopResponse::Discard(e) => return e,
+                HopByHopResponse::Continue(next) => next,
+            }
+        } else {
+            (ipv6_repr.next_header, ipv6_packet.payload())
+        };
 
         #[cfg(feature = "socket-raw")]
         let handled_by_raw_socket = self.raw_socket_filter(sockets, &ipv6_repr.into(), ip_payload);
